@@ -1111,7 +1111,9 @@ func (s *Translator) translateCoalesceFunction(functionInvocation *cypher.Functi
 			// Properties have no type information and should be skipped
 			if argumentType, err := InferExpressionType(argument); err != nil {
 				return err
-			} else if argumentType.IsKnown() {
+			} else if argumentType.IsKnown() && argumentType != pgsql.Null {
+				// An untyped NULL (a nil parameter value) says nothing about the type of the result and is not a
+				// type the call could be cast to.
 				// If the expected type isn't known yet then assign the known inferred type to it
 				if !expectedType.IsKnown() {
 					expectedType = argumentType
